@@ -475,18 +475,18 @@ PROPS["C06"] = {
     "runs": [
         {"pkg": "consensus", "harness": ["harness/c06/c06.go", "harness/c04/c04.go", "harness/c05/c05.go", "harness/common/cons_support.go"], "run": "^VH_C06_",
          "params": {"quick": {"weight_uf": 1, "tax_uf": 1, "int_mode": 1, "cur_lift": 1}, "thorough": {"weight_uf": 1, "tax_uf": 1, "int_mode": 1, "cur_lift": 1}}, "flags": {"quick": ["-timeout", "5000"], "thorough": ["-timeout", "20000"]},
-         "must_reach": {"VH_C06_RevertV2Revision": ["end"]}},
+         "must_reach": {"VH_C06_RevertV2Revision": ["end"], "VH_C06_BlockRoundTrip": ["end"]}},
         {"pkg": "consensus", "harness": ["harness/c05/c05.go"], "run": "^VH_C05_", "params": {"quick": {"maxn": 8, "maxk": 3, "maxu": 3}, "thorough": {"maxn": 16, "maxk": 6, "maxu": 3}},
          "flags": {"quick": ["-maxloop", "100000000", "-maxsteps", "200000000000"], "thorough": ["-maxloop", "1000000000", "-maxsteps", "20000000000000"]}, "must_reach": {"VH_C05_ApplyRevert": ["end"]}},
     ],
     "tv_runs": {"quick": 0, "thorough": 0},
-    "bounds": {"quick": "RevertBlock of a block whose single v2 transaction revises a contract proven in a 4-leaf parent accumulator: the revert diffs carry the contract with its pre-block content; clients tracking the three other leaves (with their post-block proofs) end with the parent forest's paths; the accumulator-level apply/revert/re-apply equations of C05 (n <= 8, <= 3 updated, <= 3 added)", "thorough": "C05 part at n <= 16"},
-    "outside": ["full ApplyBlock/RevertBlock round trips with store model, other diff kinds (siacoin/siafund/v1 contracts), reorg depth > 1: not built in this session"],
+    "bounds": {"quick": "RevertBlock of a block whose single v2 transaction revises a contract proven in a 4-leaf parent accumulator: the revert diffs carry the contract with its pre-block content; clients tracking the three other leaves (with their post-block proofs) end with the parent forest's paths; one v2 block spending a siacoin and a siafund element of a 4-leaf accumulator and creating an output of each kind, the claim and a miner payout, through the real ApplyBlock and RevertBlock (proof-of-work fields concrete): revert reports exactly apply's diffs reversed, every reported element and both bystanders verify against the child state after the apply, the parents verify as unspent and the bystanders' proofs are restored after the revert, re-applying gives the identical state and diffs; the accumulator-level apply/revert/re-apply equations of C05 (n <= 8, <= 3 updated, <= 3 added)", "thorough": "C05 part at n <= 16"},
+    "outside": ["block shapes other than the two above (v1 transactions and v1 contracts, v2 resolutions, attestations, more than one transaction)", "reorg depth > 1 and competing continuations (each step starts from the state the previous step was shown to restore, so deeper reorgs follow by induction on the step)"],
     "stubs": SEQ_CUTS, "assumptions": SEQ_ASSUME,
 }
 MANIFEST_TEXT["C06"] = {
-    "text": "Bounded model checking (partial): the real RevertBlock on a symbolic state and a block revising a v2 contract, with an independent naive forest as oracle for the proofs clients must end up with, plus the accumulator apply/revert/re-apply equations on symbolic leaf hashes.",
-    "note": "Partial claim: only the v2-revision diff kind at block level; other kinds only through the accumulator-level equations. Trusted: ideal hash, engine.",
+    "text": "Bounded model checking (partial): the real ApplyBlock / RevertBlock on a symbolic state and a block spending and creating siacoin and siafund elements, the real RevertBlock on a block revising a v2 contract, with an independent naive forest as oracle for the proofs clients must end up with, plus the accumulator apply/revert/re-apply equations on symbolic leaf hashes.",
+    "note": "Partial claim: v2 revision, siacoin and siafund diff kinds at block level; other kinds only through the accumulator-level equations. Trusted: ideal hash, engine.",
 }
 PROPS["C09"] = {
     "runs": [
